@@ -42,20 +42,21 @@ Lemma gen_fix_remove_rel : forall fuel s n,
 Proof.
   induction fuel as [|fuel IH]; intros s n; cbn [g_fix_remove fix_remove]; [reflexivity|].
   unfold fix_remove_sibling, fix_remove_rest. gluer.
-  repeat (first [ rewrite gen_isRed_eq | rewrite gen_isBlack_eq | rewrite gen_rotateLeft_eq | rewrite gen_rotateRight_eq
+  Timeout 420 repeat (first [ rewrite gen_isRed_eq | rewrite gen_isBlack_eq | rewrite gen_rotateLeft_eq | rewrite gen_rotateRight_eq
                 | match goal with |- context [g_fix_remove _ _ _ _ _ _ fuel ?s1 (Some ?n1)] =>
                     rel_split (g_fix_remove elt annot agg aeqb ek L fuel s1 (Some n1)) (fix_remove agg aeqb ek fuel s1 n1) (IH s1 n1)
                   end
                 | tie_step]; gluer); tie_done.
 Qed.
 
-(* ---- remove_half_leaf / replace_node / remove ---- *)
+(* ---- remove_half_leaf / replace_node / remove ----
+   (Timeout: when the source diverges from the model the case analysis of a big function can explode; fail in minutes) *)
 Lemma gen_remove_half_leaf_rel : forall fuel s node child,
   relabel (g_remove_half_leaf elt annot agg aeqb ek L fuel s (Some node) child) =
   relabel (remove_half_leaf agg aeqb ek fuel s node child).
 Proof.
   intros. unfold g_remove_half_leaf, remove_half_leaf, reset_links. gluer.
-  repeat (first [ rewrite gen_isRed_eq | rewrite gen_aggregate_path_eq
+  Timeout 420 repeat (first [ rewrite gen_isRed_eq | rewrite gen_aggregate_path_eq
                 | match goal with |- context [g_fix_remove _ _ _ _ _ _ ?f ?s1 (Some ?n1)] =>
                     rel_split (g_fix_remove elt annot agg aeqb ek L f s1 (Some n1)) (fix_remove agg aeqb ek f s1 n1)
                               (gen_fix_remove_rel f s1 n1)
@@ -75,7 +76,7 @@ Lemma gen_remove_rel : forall fuel s node,
   relabel (g_remove elt annot agg aeqb ek L fuel s (Some node)) = relabel (p_remove agg aeqb ek fuel s node).
 Proof.
   intros. unfold g_remove, p_remove. gluer.
-  repeat (first [ rewrite gen_replace_node_eq
+  Timeout 420 repeat (first [ rewrite gen_replace_node_eq
                 | match goal with |- context [g_remove_half_leaf _ _ _ _ _ _ ?f ?s1 (Some ?n1) ?c] =>
                     rel_split (g_remove_half_leaf elt annot agg aeqb ek L f s1 (Some n1) c)
                               (remove_half_leaf agg aeqb ek f s1 n1 c) (gen_remove_half_leaf_rel f s1 n1 c)
